@@ -6,6 +6,7 @@ use serde_json::Value;
 pub mod gen;
 pub mod c01;
 pub mod c02;
+pub mod c03;
 pub mod c05;
 pub mod tree;
 
@@ -48,6 +49,7 @@ pub fn get(id: &str) -> Option<Box<dyn Check>> {
     match id {
         "C01" => Some(Box::new(c01::C01)),
         "C02" => Some(Box::new(c02::C02)),
+        "C03" => Some(Box::new(c03::C03)),
         "C05" => Some(Box::new(c05::C05)),
         _ => None,
     }
